@@ -108,12 +108,22 @@ def rec_peaks(seed):
     with warnings.catch_warnings():
         warnings.simplefilter('ignore')
         kw = {'box_size': (sy, sx)} if use_box else {'footprint': fp}
+        # refinement with a centroid function (centre of mass of the footprint window around each peak; odd windows, plain values)
+        refine = emb == 'id' and sy % 2 == 1 and sx % 2 == 1 and rng.random() < 0.6
+        if refine:
+            from photutils.centroids import centroid_com
+            kw['centroid_func'] = centroid_com
         t = find_peaks(d, float(f(t0)) if thr_scalar else f(np.array(thr, dtype=float)), mask=m, border_width=tuple(border) if any(border) else None,
                        npeaks=npeaks if npeaks < 10**6 else np.inf, **kw)
     out = [] if t is None else [[int(y), int(x)] for x, y in zip(t['x_peak'], t['y_peak'])]
     vals = [] if t is None else [int(round(float(finv(v)))) for v in t['peak_value']]
     ids = [] if t is None else [int(v) for v in t['id']]
-    return {'id': seed, 'kind': 'peaks', 'embedding': emb, 'data': data, 'nan': nan, 'mask': mask, 'thr': thr, 'fp': offs, 'border': border, 'npeaks': npeaks,
+    cen = []
+    if refine and t is not None:
+        for xc, yc in zip(t['x_centroid'], t['y_centroid']):
+            ok = bool(np.isfinite(xc) and np.isfinite(yc))
+            cen.append([int(round(float(xc) * S)) if ok else 0, int(round(float(yc) * S)) if ok else 0, not ok])
+    return {'id': seed, 'kind': 'peaks', 'refine': bool(refine), 'cen': cen, 'embedding': emb, 'data': data, 'nan': nan, 'mask': mask, 'thr': thr, 'fp': offs, 'border': border, 'npeaks': npeaks,
             'none': t is None, 'out': out, 'values': vals, 'ids': ids}
 
 
